@@ -104,4 +104,49 @@ theorem C19_no_fault_is_addRows (sortFn : List Row → List Row) (maxCell : Opti
        | .panic p => .panic p) :=
   SorterFault.addRowsF_no_fault sortFn maxCell runSize rows 0 st
 
+/-- The key of a table without primary key is every column of THAT table: for a row of width `w`
+    it is the key read through the index list `[0, .., w-1]` (what `Sorter.pkIndices` hands to the
+    key extraction), and through no shorter list. -/
+theorem C19_keyless_key_is_all_columns (w : Nat) (r : Row) (hw : r.length = w) :
+    keyOf (List.range w) r = keyOf [] r := by
+  subst hw
+  unfold keyOf
+  by_cases h : r = []
+  · subst h; simp
+  · have : (List.range r.length).isEmpty = false := by
+      cases r with
+      | nil => exact absurd rfl h
+      | cons a l => simp [List.range_succ]
+    simp only [this, List.isEmpty_nil]
+    apply List.ext_getElem
+    · simp
+    · intro i h1 h2
+      simp at h1
+      simp [h1]
+
+/-- an index list made for a narrower table does not identify the rows of a wider one -/
+theorem C19_narrower_index_list_collapses_rows :
+    ∃ (a b : Row), a.length = 2 ∧ b.length = 2 ∧ a ≠ b ∧ keyOf (List.range 1) a = keyOf (List.range 1) b :=
+  ⟨[[1], [2]], [[1], [3]], rfl, rfl, by decide, by decide⟩
+
+/-- One sorter, several key-less tables of any widths: the table loaded after a `Reset` comes out as
+    the set of its own distinct rows — every input row is there, nothing else is, no row twice —
+    whatever the sorter held (and had worked out about the earlier tables) before. -/
+theorem C19_reuse_keyless_keeps_every_row (sortFn : List Row → List Row) (hs : IsSort [] sortFn)
+    (w : Nat) (maxCell : Option Nat) (runSize : Nat) (rows : List Row) (st0 st : SorterSt)
+    (hw : RowsWF w [] rows)
+    (hadd : reuse sortFn maxCell runSize st0 rows = .ok st) :
+    (∀ r, r ∈ rows ↔ r ∈ keptRows sortFn [] st) ∧ (keptRows sortFn [] st).Nodup := by
+  obtain ⟨h1, h2, h3⟩ := C19_reuse_kept_spec sortFn [] hs w maxCell runSize rows st0 st hw hadd
+  refine ⟨fun r => ⟨fun hr => ?_, h2 r⟩, ?_⟩
+  · obtain ⟨r', hr', hk⟩ := h3 r hr
+    simp [keyOf] at hk
+    exact hk ▸ hr'
+  · refine List.Pairwise.imp ?_ h1
+    intro a b hab hne
+    subst hne
+    simp [keyOf] at hab
+    rw [KeyOrder.keyCmp_refl] at hab
+    exact absurd hab (by decide)
+
 end Wrgl
